@@ -127,6 +127,12 @@ finding("C06-transform-a-unset-nounset", "C06", "`${v@a}` of an unset variable u
 finding("C06-array-slices", "C06", "`${a[@]:o:l}` on sparse / associative arrays, `${@@A}`, `${a[@]@a}` differ from bash",
         all=["kind:array"])
 
+fixed("C06", "assigns to the variable that ref names", "`r=v; unset v; ${!r:=d}` assigned to `r` instead of `v`")
+finding("C06-negated-alternation", "C06", "`!(a|ab)` matches `ab` (and `!(a|a*)` matches `aa`): the negated group is translated to `(?:(?!a|ab).*|(?>a|ab).+?|)`, whose atomic second arm commits to the first alternative that fits and lets the rest of a longer alternative count as the 'extra' text",
+        all=["pat:negated-alternation"], why="needs a different translation of !( ) (a whole-region negative look-ahead), not a local patch; `!(ab|a)` with the longer alternative first works")
+finding("C06-alternation-first-not-longest", "C06", "`${v/@(a|ab)/X}` on `ab` gives `Xb` (bash `X`): the substitution operators take the regex engine's first successful alternative instead of the longest match; `#`/`##`/`%`/`%%` are not affected (they test every prefix/suffix)",
+        all=["pat:paren"], none=["pat:negated-alternation"], oracle="bash", why="regex alternation is ordered; POSIX-longest needs trying every end position per start, as the removal operators do")
+fixed("C06", "accepts an empty match right after a replaced match", "`x='a '; ${x//*(a|b)/X}` gave `X `, bash `XX `")
 finding("C06-patsub-replacement-amp", "C06", "bash 5.2 (`patsub_replacement`, on by default) replaces an unquoted `&` in the replacement of ${v/p/r} by the matched text; brush inserts a literal `&`",
         all=["replacement", "rep:unquoted-amp"], why="a missing feature (needs quoting information of the replacement word at substitution time), not a slip")
 finding("C06-patsub-replacement-backslash", "C06", "same feature: in an unquoted replacement `\\\\` stands for one backslash (and `\\&` for `&`); brush keeps both characters",
@@ -143,6 +149,8 @@ finding("C07-shift-assign-in-subscript", "C07", "`<<=` inside an array subscript
 finding("C07-malformed", "C07", "lexing quirks: empty `$(( ))` is an error (bash: 0), `--1`/`++1` are errors (bash: 1), `'1'+1` is accepted (bash: error)",
         all=["malformed"])
 
+finding("C07-inc-dec-run-before-non-name", "C07", "`++`/`--` not followed by a name: bash reads `++ +x`, `+++x`, `x+ ++1`, `++-x` as unary signs (and `+ ++x`), brush reports a syntax error (or, for `1++x`, accepts what bash rejects)",
+        all=["confusable-pair", "same-when-alone", "text:inc-dec-run"], why="the arithmetic grammar tokenises `++`/`--` greedily without bash's look-ahead for an identifier; the result is the same whether or not another spelling was evaluated before (not order-dependent)")
 # ---------------------------------------------------------------------------------------------- C08
 finding("C08-leading-rbracket", "C08", "a `]` right after `[` or `[!` is not taken literally (`[]]`, `[!]]`)",
         all=["pat:leading-rbracket"])
